@@ -317,11 +317,11 @@ Inductive hop :=
 | UClear (h : nat)                               (* pyrates.clear(<circuit h>) *)
 | CFC (tc ic : bool).                            (* clear_frontend_caches(clear_template_cache, clear_ir_cache) *)
 
-(* THE SWITCH: false = PyRates as it is; true = with /verif/fixes/proposed_fix_C13_clear.diff applied (circuit.clear() and
-   pyrates.clear() tolerate `_ir is None` and reset every process-global frontend cache unconditionally;
-   clear_frontend_caches(clear_ir_cache=True) also clears in_edge_indices, in_edge_vars, input_labels).
+(* THE SWITCH: true = PyRates as it is now (repair D78, /verif/fixes/fix_D78.diff, in /repo since 5e21e90); false = before that repair.
+   The repair: circuit.clear() and pyrates.clear() tolerate `_ir is None` and reset every process-global frontend cache
+   unconditionally; clear_frontend_caches(clear_ir_cache=True) also clears in_edge_indices, in_edge_vars, input_labels.
    harness/c13.py reads this line. *)
-Definition fixed_clear : bool := false.
+Definition fixed_clear : bool := true.
 
 Definition default_file : string := "m".
 
